@@ -49,12 +49,28 @@ def oenv():
 # ----------------------------------------------------------------------------- function payloads
 
 
+def _canon_hugr_dict(h):
+    """Embedded HUGR (SerialHugr instance or JSON dict) as a plain dict with every default filled in by the
+    serial models, recursively through function constants nested inside; encoder name dropped."""
+    from hugr._serialization.serial_hugr import SerialHugr
+    if isinstance(h, dict):
+        h = SerialHugr.load_json(h)
+    d = json.loads(h.model_dump_json())
+    d.pop("encoder", None)
+
+    def walk(x):
+        if isinstance(x, dict):
+            if x.get("v") == "Function" and "hugr" in x:
+                return {**x, "hugr": _canon_hugr_dict(x["hugr"])}
+            return {k: walk(v) for k, v in x.items()}
+        if isinstance(x, list):
+            return [walk(v) for v in x]
+        return x
+    return walk(d)
+
+
 def canon_hugr_json(h) -> str:
-    """Canonical JSON of an embedded HUGR (SerialHugr instance or validated dict), encoder name dropped."""
-    if not isinstance(h, dict):
-        h = json.loads(h.model_dump_json())
-    h = {k: v for k, v in h.items() if k != "encoder"}
-    return json.dumps(h, sort_keys=True)
+    return json.dumps(_canon_hugr_dict(h), sort_keys=True)
 
 
 _payloads = {}
@@ -664,3 +680,89 @@ def gen_jop(rng):
             j["input_extensions"] = None               # written by older hugr-rs encoders; ignored by the schema
         return foreignise(rng, j)
     return {"parent": 0, "op": "Module"}
+
+
+# ----------------------------------------------------------------------------- whole documents
+
+assert T.INTERN("meta:{}") == 0, "the empty metadata dict must be interned as 0 (model/CodecDoc.v empty_meta)"
+
+
+def walk_sdoc(sh) -> str:
+    """Walk of a validated SerialHugr as a literal of model/CodecDoc.v `sdoc`."""
+    fields(sh, "version", "nodes", "edges", "metadata", "encoder")
+    nodes = glist(walk_sop(n) for n in sh.nodes)
+    port = lambda p: gpair(gN(p[0]), gopt(None if p[1] is None else gN(p[1])))
+    edges = glist(gpair(port(a), port(b)) for a, b in sh.edges)
+    if sh.metadata is None:
+        meta = "None"
+    else:
+        meta = gopt(glist(gopt(None if m is None else gN(T.INTERN("meta:" + json.dumps(m, sort_keys=True)))) for m in sh.metadata))
+    return gapp("SDoc", nodes, edges, meta)
+
+
+def order_ends(h):
+    """For the serialised edges of a library HUGR: which ends sit on the order port (generator only)."""
+    from hugr.ops import _num_dataflow_ports
+    from hugr.hugr.node_port import Direction
+    nodes = list(h)
+    j = json.loads(h.to_json())
+    res = []
+    for (s, so), (d, do) in j["edges"]:
+        res.append((_num_dataflow_ports(h[nodes[s]].op, Direction.OUTGOING) == so,
+                    _num_dataflow_ports(h[nodes[d]].op, Direction.INCOMING) == do))
+    return j, res
+
+
+def foreign_doc(rng, h):
+    """The JSON document of a library HUGR rewritten the way hugr-rs writes documents."""
+    j, ends = order_ends(h)
+    doc = {"version": j["version"], "nodes": [foreignise(rng, n) for n in j["nodes"]]}
+    for n in doc["nodes"]:
+        if rng.random() < 0.3:
+            n["input_extensions"] = None
+    edges = []
+    for ((s, so), (d, do)), (os_, od_) in zip(j["edges"], ends):
+        edges.append([[s, None if (os_ and rng.random() < 0.85) else so], [d, None if (od_ and rng.random() < 0.85) else do]])
+    doc["edges"] = edges
+    md = j.get("metadata")
+    r = rng.random()
+    if md is not None:
+        if all(m is None for m in md) and r < 0.4:
+            md = None
+        elif r < 0.6:
+            while md and md[-1] is None:              # shorter list: trailing nulls left out
+                md = md[:-1]
+        elif r < 0.75:
+            md = [({} if (m is None and rng.random() < 0.5) else m) for m in md]
+    if md is not None or rng.random() < 0.5:
+        doc["metadata"] = md
+    if rng.random() < 0.7:
+        doc["encoder"] = rng.choice(["hugr-rs v0.15.0", None])
+    return T.shuffle_keys(rng, doc)
+
+
+def observe_doc(j):
+    """Load a JSON document with Hugr.load_json, re-save with to_json, compare through the public API."""
+    from hugr.hugr import Hugr
+    from hugr.hugr.node_port import Node
+    from hugr._serialization.serial_hugr import SerialHugr
+    s_in = SerialHugr.load_json(j)
+    o = {"s": walk_sdoc(s_in)}
+    try:
+        h = Hugr.load_json(json.dumps(j))
+        out = json.loads(h.to_json())
+    except WalkError:
+        raise
+    except Exception as ex:
+        return {**o, "raised": type(ex).__name__}
+    s_out = SerialHugr.load_json(out)
+    ok = True
+    for (s, so), (d, do) in j["edges"]:
+        if so is None:                                # written without an offset: must be a state-order link
+            ok = ok and any(x.idx == d for x in h.outgoing_order_links(Node(s)))
+        if do is None:
+            ok = ok and any(x.idx == s for x in h.incoming_order_links(Node(d)))
+    ok = ok and len(h) == len(j["nodes"])
+    for i, n in enumerate(j["nodes"]):                # node kinds and names through the public API
+        ok = ok and out["nodes"][i]["op"] == n["op"] and out["nodes"][i].get("name") == n.get("name")
+    return {**o, "raised": None, "reser": walk_sdoc(s_out), "ok": bool(ok)}
